@@ -429,6 +429,7 @@ class HdlcFrameReader(MeterReaderBase[HdlcFrame]):
     def _start_frame(self) -> None:
         self._frame = HdlcFrame()
         self._raw_frame_data.clear()
+        self._unescape_next = False
 
     def _goto_hunt_mode(self) -> None:
         self._frame = None
